@@ -158,6 +158,17 @@ fn table_part_with_empty_first_cell(dom: &ODom, id: odom::Id) -> bool {
     let mut stack = vec![id];
     while let Some(x) = stack.pop() {
         if let Some(n) = dom.html_name(x) {
+            if n == "tr" {
+                // the first row decides: the marker is parked in its first cell, and a
+                // row without any cell has none
+                let has_cell = dom
+                    .children(x)
+                    .iter()
+                    .any(|&c| matches!(dom.html_name(c), Some("td") | Some("th")));
+                if !has_cell {
+                    return true;
+                }
+            }
             if n == "td" || n == "th" {
                 // a spanning first cell over columns that hold no text of their own can be
                 // given width 0 (the unsized-column defect recorded under C03/C05/C06) and
